@@ -60,11 +60,22 @@ def verify_one(args):
 
 
 def run_proofs(fids, tier):
+    """one fresh process per function (z3 contexts are not shared between functions)"""
     if not fids:
         return []
+    from concurrent.futures import ProcessPoolExecutor
     ctx = mp.get_context('spawn')
-    with ctx.Pool(min(len(fids), 14), maxtasksperchild=1) as pool:
-        return pool.map(verify_one, [(f, REPO, tier) for f in fids], chunksize=1)
+    out = []
+    with ProcessPoolExecutor(max_workers=min(len(fids), 14), mp_context=ctx, max_tasks_per_child=1) as ex:
+        futs = [(f, ex.submit(verify_one, (f, REPO, tier))) for f in fids]
+        for f, fu in futs:
+            try:
+                out.append(fu.result(timeout=900 if tier == 'quick' else 3600))
+            except Exception as e:
+                out.append(dict(fid=f, status='checker-crash', error=f"worker failed: {type(e).__name__}: {e}", obligations=[],
+                                sat_checks=[], assumptions=[], used_contracts=[], paths=0, wall_s=0, fn_hash=None,
+                                ghost_sites=[], ghost_declared=[], serves=[], note=''))
+    return out
 
 
 def load_json(path, default):
